@@ -83,6 +83,8 @@ they are opened; `set` / `get` / `sethold` / `release` and everything above may 
 * `areident <c> <ident>` — the peer writes one more identity message on a connection that is served:
   `ignored` (nothing is dispatched; later messages keep the identity that was tested)
 * `agone <c>` — the peer closes its end
+* `astop` — `Router.Stop` (once; afterwards no `aconn`): the receive loops end; `areg` / `alaunch` of a connection
+  whose goroutine stood before registration / launch answer `closed`, messages are `queued` or `closed`, never dispatched
 -/
 def stepCore (s : State) (toks : List String) : State × String :=
   let go (op : Option Op) : State × String :=
@@ -106,7 +108,16 @@ def stepCore (s : State) (toks : List String) : State × String :=
   | ["dial", p] => go ((parseIdent p).map .dial)
   | ["drop", k] => go (k.toNat?.map .drop)
   | ["aconn", c] =>
-    if c.toNat? = some s.acc.conns.length then ({ s with acc := Acc.step s.acc .connect }, "ok") else (s, "bad-op")
+    -- the listener of a stopped router is closed: nobody connects any more
+    if c.toNat? = some s.acc.conns.length ∧ s.acc.closed = false then ({ s with acc := Acc.step s.acc .connect }, "ok")
+    else (s, "bad-op")
+  | ["astop"] =>
+    -- `Router.Stop`: `isClosed` is set and the registered connections are closed, so every receive loop takes
+    -- its next turn at once and ends; goroutines that stand before registration or launch find out when they go on
+    if s.acc.closed then (s, "bad-op")
+    else
+      let a := Acc.step s.acc .stop
+      ({ s with acc := Acc.run a ((List.range a.conns.length).map .recv) }, "ok")
   | ["aident", c, p] =>
     match c.toNat?, parseIdent p with
     | some c, some p =>
